@@ -214,6 +214,9 @@ func allSites(nops int, storage string) []faultSite {
 			for _, p := range []string{vlib.DBegin, vlib.DQuery, vlib.DRowsNext, vlib.DExec, vlib.DCommit, vlib.DRollback} {
 				out = append(out, faultSite{op, vlib.FaultSpec{Point: p}})
 			}
+			for _, p := range []string{vlib.DExec, vlib.DQuery, vlib.DRowsNext} {
+				out = append(out, faultSite{op, vlib.FaultSpec{Point: p, Nth: 1}})
+			}
 			for _, p := range []string{vlib.DPrepare, vlib.DStmtClose} {
 				out = append(out, faultSite{op, vlib.FaultSpec{Point: p, Nth: 0}}, faultSite{op, vlib.FaultSpec{Point: p, Nth: 1}})
 			}
